@@ -11,10 +11,13 @@ from .. import cover, monitor
 RULE = ('group "tensors": case i picks source = SOURCES[i % 16] (random SPD entered through each of the 5 '
         'representations; named constants of the 9 crystal-system keyword forms, keyword-name variants cycled; isotropic '
         'by a random modulus pair; SPD with one entry straddling the 1e-9 zeroing threshold), rotation class = '
-        'ROTATIONS[(i // 16) % 7] (Haar, product of 2-3, cubic point-group element, angle 5e-9..1e-4, about a '
-        'coordinate axis incl. pi-1e-7, orthogonal non-unit/integer rows, angle 1e-10..5e-9), scale 0.006/1/150, condition number '
+        'ROTATIONS[(i // 16) % 8] (Haar, product of 2-3, cubic point-group element, angle 5e-9..1e-4, about a '
+        'coordinate axis incl. pi-1e-7, orthogonal non-unit/integer rows, angle 1e-10..5e-9, exact half turn about a coordinate axis), scale 0.006/1/150, condition number '
         '10/300/1e4, strain class (5), ndarray/list containers.  group "isotropic": i enumerates the 15 modulus pairs '
         'x 5 Poisson classes (0, 1e-4..1e-2, <1/4, >1/4, 1/2-1e-4..1e-2) x 3 scales x alias names x keyword order.  '
+        'group "histories": one object, 8 operations (first two = all 36 ordered pairs of read / read-then-overwrite-the-returned-'
+        'array / modulus / transform / normalise / reassign through a random representation), all five representations '
+        're-read in random order after every operation.  '
         'Every case is non-trivial (stiffness is SPD, never a multiple of the identity); distinct = distinct '
         'fingerprint of (stiffness, rotations) resp. (lambda, mu, pair, keywords).')
 ASSUMPTIONS = ['stiffness matrices are symmetric positive definite with condition number <= 1e4',
@@ -641,6 +644,64 @@ def run_iso_case(ctx, EC, i):
 
 
 # ==========================================================================
+def run_history_case(ctx, EC, i):
+    """One object, a sequence of operations; after every operation all five representations (read in a fresh
+    random order, so that any read may precede any other) must still be those of the tensor it holds."""
+    rec, rng = ctx.rec, ctx.rng
+    ops_tbl = GEN.HISTORY_OPS
+    nops = 8
+    ops = [ops_tbl[i % 6], ops_tbl[(i // 6) % 6]] + [ops_tbl[int(k)] for k in rng.integers(0, 6, nops - 2)]
+    scale = GEN.SCALES[(i // 36) % 3]
+    case = Case(GEN.spd_generic(rng, GEN.CONDS[i % 3]) * scale)
+    entry = GEN.REPRS[(i // 3) % 5]
+    rec.case(('history', ops[0], ops[1], entry), nontrivial=True, fp=fingerprint(case.c6, ops))
+    if i < 12:
+        rec.sample(dict(entered_as=entry, ops=ops, Cij=case.c6))
+    C = None
+    with ctx.guard(f'ElasticConstants({entry}=...)', f'history:build:{entry}'):
+        C = EC(**{entry: container(case.exp[entry], bool(i % 2))})
+    if C is None:
+        return
+    done = []
+    for op in ops:
+        done.append(op)
+        rec.count('history:op:' + op)
+        key = 'history:' + op
+        with ctx.guard(f'history step {op}', key):
+            if op in ('read', 'read-and-scribble'):
+                r = GEN.REPRS[int(rng.integers(0, 5))]
+                val = getattr(C, r)
+                rec.close(case.tol(r, 1e-13 * case.cond), val, case.exp[r], f'history: {r} equals the oracle\'s {r}', key + ':' + r, ops=done)
+                if op == 'read-and-scribble':       # what a caller may do with an array it was handed
+                    val *= 3.0
+                    val += 1.0
+            elif op == 'moduli':
+                ref = O.vrh(case.c6)
+                which = ('bulk', 'shear')[int(rng.integers(0, 2))]
+                style = ('Voigt', 'Reuss', 'Hill')[int(rng.integers(0, 3))]
+                rec.close(modulus_tol(style, ref[which, style], case.cond, case.smax, case.cmax), getattr(C, which)(style), ref[which, style],
+                          f'history: {which}({style}) equals the oracle\'s value', f'{key}:{which}:{style}', ops=done)
+            elif op == 'transform':
+                R = GEN.rotation(rng, GEN.ROTATIONS[int(rng.integers(0, len(GEN.ROTATIONS)))])
+                E = O.rotate_voigt(case.c6, O.unit_rows(R))
+                rec.close(ztol(E, THR_TRF, extra=1e-13 * case.cond * case.cmax), C.transform(R).Cij, E, 'history: transform equals the oracle\'s rotation', key, ops=done)
+            elif op == 'normalized':
+                system = NORMAL_SYSTEMS[int(rng.integers(0, 6))]
+                C.normalized_as(system)
+                C.is_normal(system)
+            elif op == 'reassign':
+                case = Case(GEN.spd_generic(rng, GEN.CONDS[int(rng.integers(0, 3))]) * scale)
+                r = GEN.REPRS[int(rng.integers(0, 5))]
+                setattr(C, r, container(case.exp[r], bool(rng.integers(0, 2))))
+        # the object still is the tensor it holds, whatever was read or computed before
+        for r in rng.permutation(GEN.REPRS):
+            with ctx.guard(f'reading {r} after {op}', f'history:after:{r}'):
+                rec.close(case.tol(r, 1e-13 * case.cond), getattr(C, r), case.exp[r],
+                          f'history: after every operation {r} is still the oracle\'s {r} of the tensor held', f'history:after:{r}', ops=done)
+        rec.count('history:steps')
+
+
+# ==========================================================================
 def run(ctx):
     import atomman as am
     EC = am.ElasticConstants
@@ -653,6 +714,8 @@ def run(ctx):
         run_tensor_case(ctx, EC, i)
     for i in ctx.cases('isotropic', ctx.pick(900, 4500)):
         run_iso_case(ctx, EC, i)
+    for i in ctx.cases('histories', ctx.pick(216, 2160)):
+        run_history_case(ctx, EC, i)
 
     for k, v in monitor.calls.items():
         if isinstance(v, int):
@@ -672,12 +735,15 @@ def run(ctx):
     for s in GEN.SOURCES:
         rec.floor('class:source:' + s, 50)
     for r in GEN.ROTATIONS:
-        rec.floor('class:rotation:' + r, 120)
+        rec.floor('class:rotation:' + r, 100)
     for p in O.ISO_PAIRS:
         rec.floor('iso:pair:' + ','.join(p), 36)
     for c in GEN.NU_CLASSES:
         rec.floor('iso:class:' + c, 100)
     rec.floor('iso:skipped-undefined-at-nu=0:lambda,nu', 1)
+    for op in GEN.HISTORY_OPS:
+        rec.floor('history:op:' + op, 150)
+    rec.floor('history:steps', 1500)
     rec.floor('conversions', 5000)
     rec.floor('roundtrips', 1000)
     rec.floor('symmetry-rotations', 500)
